@@ -99,6 +99,16 @@ static std::string opFisher(Args& A, Session* S){
 			if(!(res <= 1e-6 * (sc + 1e-300) || sc <= 1e-9 * (1 + trw) * wmax)) o.fail("fisher-direction-not-stationary");
 		}
 	}
+	// batch-partition independence
+	{ std::vector<std::vector<std::size_t> > parts = T.otherPartitions();
+	  for(std::size_t p = 0; p < parts.size(); ++p){
+		LabeledData<RealVector, unsigned int> other = createLabeledDataFromRange(X, y, n);
+		other.repartition(parts[p]);
+		LinearModel<> m2; RealVector g2(d); RealMatrix s2(d, d);
+		try{ freshTrainer.stats(other, g2, s2); freshTrainer.train(m2, other);
+		     if(!closeVec(gmean, g2, 1e-12) || (regular && (!closeMat(W, m2.matrix(), 1e-9) || !closeVec(b, m2.offset(), 1e-9)))) o.fail("batch-dependent");
+		}catch(std::exception const&){ o.fail("batch-dependent"); }
+	  } }
 	return o.line("ok", inexact);
 }
 
